@@ -55,7 +55,7 @@ var asyncScenarios = []string{"foreach-list", "foreach-object", "map-list", "map
 
 func runAsync(ch *simrt.Chooser, opt Options) RunResult {
 	res := RunResult{Counters: map[string]int{}}
-	cfg := simrt.Config{MaxSteps: 200000, KeepTrace: opt.KeepTrace}
+	cfg := simrt.Config{MaxSteps: 2000000, KeepTrace: opt.KeepTrace}
 	// PCT (few, well-placed preemptions of an otherwise run-to-block schedule) gets a double share
 	cfg.Policy = []simrt.Policy{simrt.PolRandom, simrt.PolLowest, simrt.PolHighest, simrt.PolRoundRobin, simrt.PolPCT, simrt.PolPCT, simrt.PolStarve}[ch.Draw("policy", 7)]
 	cfg.SwitchPermille = []int{50, 200, 500, 800, 1000}[ch.Draw("switch-rate", 5)]
@@ -84,17 +84,37 @@ func runAsync(ch *simrt.Chooser, opt Options) RunResult {
 			width = 40 // beyond any small batch size a chunking implementation might use
 			res.Counters["size-class:wide"]++
 		case wc == 5:
-			width = []int{65, 100, 129, 257}[s.Draw("huge-width", 4)] // beyond larger batch sizes (64, 128, 256)
+			width = []int{64, 65, 100, 128, 129, 256, 257, 320, 384, 512, 513, 600, 1024, 1025}[s.Draw("huge-width", 14)] // at and beyond larger batch sizes
 			res.Counters["size-class:huge"]++
+		}
+		exact := 0
+		if width > 40 {
+			exact = width
+		}
+		build := func(list bool) any {
+			if exact == 0 {
+				if list {
+					return genList(s, treeOpts{depth: 2, width: width, spare: true})
+				}
+				return genObject(s, treeOpts{depth: 2, width: width, spare: true, keys: wideKeys(width)})
+			}
+			// exactly `exact` elements (batch and chunk boundaries are exact counts)
+			if list {
+				l := at.NewList()
+				for i := 0; i < exact; i++ {
+					l.Add(genValue(s, treeOpts{depth: 1, width: 2}))
+				}
+				return l
+			}
+			o := at.NewObject()
+			for i := 0; i < exact; i++ {
+				o.Set("k"+strconv.Itoa(i), genValue(s, treeOpts{depth: 1, width: 2}))
+			}
+			return o
 		}
 		switch scen {
 		case 0, 1:
-			var c any
-			if scen == 0 {
-				c = genList(s, treeOpts{depth: 2, width: width, spare: true})
-			} else {
-				c = genObject(s, treeOpts{depth: 2, width: width, spare: true, keys: wideKeys(width)})
-			}
+			c := build(scen == 0)
 			nm := nameHeap(c)
 			before := canon(c, nm)
 			trace = append(trace, "container "+short(before, 300))
@@ -103,12 +123,7 @@ func runAsync(ch *simrt.Chooser, opt Options) RunResult {
 				top.fail("receiver-changed", asyncScenarios[scen], "ForEachAsync changed its receiver: "+short(before, 200)+" -> "+short(after, 200))
 			}
 		case 2, 3:
-			var c any
-			if scen == 2 {
-				c = genList(s, treeOpts{depth: 2, width: width, spare: true})
-			} else {
-				c = genObject(s, treeOpts{depth: 2, width: width, spare: true, keys: wideKeys(width)})
-			}
+			c := build(scen == 2)
 			nm := nameHeap(c)
 			before := canon(c, nm)
 			f := s.Draw("pure-fn", len(pureFns))
@@ -241,11 +256,18 @@ var callSeq uint64
 func doForEachAsync(s *simrt.Sim, cl *asyncClient, c any, seq int) {
 	id := uint64(cl.id)*1000 + uint64(seq)
 	call := &asyncCall{id: id, expected: map[uint64]int{}}
+	reentrant := s.Draw("cb-reentrant", 8) == 0
+	if reentrant {
+		cl.ops["probe:callback-calls-back-into-the-library"]++
+	}
 	cb := func(slot uint64, v any) {
 		h := fnv(0, slot, digest(v))
 		s.Log(tagCbStart, id, h)
 		for y := s.Draw("cb-yield", 4); y > 0; y-- {
 			simrt.Yield()
+		}
+		if reentrant && s.Draw("cb-reenter-now", 3) == 0 {
+			reenter(s, c)
 		}
 		s.Log(tagCbEnd, id, h)
 	}
@@ -334,9 +356,16 @@ var pureFns = []pureFn{
 
 func doMapAsync(s *simrt.Sim, cl *asyncClient, c any, fn int, nm namer) {
 	pf := pureFns[fn]
+	reentrant := s.Draw("cb-reentrant", 8) == 0
+	if reentrant {
+		cl.ops["probe:callback-calls-back-into-the-library"]++
+	}
 	yielding := func(slot string, i int, v any) any {
 		for y := s.Draw("cb-yield", 3); y > 0; y-- {
 			simrt.Yield()
+		}
+		if reentrant && len(slot)%3 == 0 {
+			reenter(s, c)
 		}
 		return pf.f(slot, i, v)
 	}
@@ -863,7 +892,7 @@ func collect(roots ...any) (lists []at.List, objs []at.Object) {
 // genPath walks down from c and renders a tree-form path; with some probability it ends in a step that does not resolve.
 func genPath(d drawer, c any) string {
 	var b strings.Builder
-	for depth := 0; depth < 4; depth++ {
+	for depth := 0; depth < 9; depth++ {
 		switch x := c.(type) {
 		case at.List:
 			n := x.Count()
@@ -892,7 +921,7 @@ func genPath(d drawer, c any) string {
 		default:
 			return b.String()
 		}
-		if d.Draw("path-stop", 3) == 0 {
+		if d.Draw("path-stop", 5) == 0 {
 			break
 		}
 	}
@@ -998,6 +1027,19 @@ func readers(s *simrt.Sim, top *asyncClient, sameCall bool, trace *[]string) []*
 		}
 		roots = append(roots, wl, wo)
 		top.ops["probe:readers-wide-heap"]++
+	}
+	if s.Draw("readers-deep", 4) == 0 {
+		// a chain of nested containers, so that tree-form reads with many segments exist
+		var inner any = at.NewList("leaf", 1)
+		for i := 0; i < 4+s.Draw("deep-n", 5); i++ {
+			if i%2 == 0 {
+				inner = at.NewObject("a", inner, "b", i)
+			} else {
+				inner = at.NewList(i, inner)
+			}
+		}
+		roots = append(roots, inner)
+		top.ops["probe:readers-deep-heap"]++
 	}
 	// make sure both interfaces are present, and nest one root into another sometimes (shared sub-tree)
 	roots = append(roots, at.NewList(1, "two", 3.5, roots[0]), at.NewObject("a", 1, "b", roots[0]))
@@ -1153,4 +1195,55 @@ func wideKeys(width int) []string {
 		out = append(out, "k"+strconv.Itoa(100+i))
 	}
 	return out
+}
+
+// reenter performs a read-only call on the container from inside a callback of an async call on that same
+// container (a pure callback may read its container; nested async calls are read-only too).
+func reenter(s *simrt.Sim, c any) {
+	// only on small containers: n callbacks each starting n more goroutines is quadratic work for the harness itself
+	switch x := c.(type) {
+	case at.List:
+		if x.Count() > 12 {
+			return
+		}
+	case at.Object:
+		if x.Count() > 12 {
+			return
+		}
+	}
+	k := s.Draw("reenter-kind", 6)
+	try(func() {
+		switch x := c.(type) {
+		case at.List:
+			switch k {
+			case 0:
+				_ = x.Count()
+			case 1:
+				_ = x.String()
+			case 2:
+				_ = x.Clone()
+			case 3:
+				x.ForEachAsync(func(int, any) { simrt.Yield() })
+			case 4:
+				_ = x.MapAsync(func(i int, v any) any { simrt.Yield(); return i })
+			default:
+				_ = x.Contains(1)
+			}
+		case at.Object:
+			switch k {
+			case 0:
+				_ = x.Count()
+			case 1:
+				_ = x.String()
+			case 2:
+				_ = x.Keys()
+			case 3:
+				x.ForEachAsync(func(string, any) { simrt.Yield() })
+			case 4:
+				_ = x.MapAsync(func(k string, v any) any { simrt.Yield(); return k })
+			default:
+				_ = x.Contains(1)
+			}
+		}
+	})
 }
